@@ -19,6 +19,8 @@ POLYGONS = [
     {'poly': [[1, 1], [3, 1], [3, 2], [1, 2], [1, 1]], 'closed': True},                    # 2 x 1 rectangle off the origin
     {'poly': [[0, 0], [3, 0], [3, 1], [2, 1], [2, 2], [0, 2], [0, 0]], 'closed': True},      # staircase
     {'poly': [[0, 0], [1, 0], [1, 0.5], [2, 0.5]], 'closed': False},                         # open polyline with corners
+    # the unit square far from the origin (coordinates 1e4 times the element size)
+    {'poly': [[10000, 20000], [10001, 20000], [10001, 20001], [10000, 20001], [10000, 20000]], 'closed': True},
     # a notch in the bottom side: two collinear sides that are not contiguous in the parameter
     {'poly': [[0, 0], [1, 0], [1, 0.25], [2, 0.25], [2, 0], [3, 0], [3, 1], [0, 1], [0, 0]], 'closed': True},
 ]
